@@ -281,6 +281,8 @@ func checkC07(cx *Ctx, r *Report) {
 	cx.checkDestinationAccepts(r, "provider.verifyRequestDestinationOfAttrQuery")
 	// --- every advertised binding reaches its handler: no route matcher that excludes GET or POST ---------------------
 	cx.checkRouteMatchers(r)
+	// --- the verifier compares the received signature with the digest of the received octets (not swapped) ---------
+	cx.checkVerifierArguments(r)
 	// --- base64 text is decoded as received, with the standard encoding --------------------------------------------------
 	cx.checkBase64Decoding(r)
 	// --- certificate comparison ---------------------------------------------------------------------------------------
